@@ -6,7 +6,7 @@ From Coq Require Import String List NArith Bool.
 From J5V.lib Require Import Outcome Strcase.
 From J5V.model Require Import J5sAst Desc J5sWalk J5sLink J5sConvert J5sContract J5sSymbols J5sTypeNames J5sValid J5sCorr.
 From J5V.gen Require ImportsGen.
-From J5V.proofs Require Import J5sProofs J5sContractProofs J5sLinkProofs J5sResolveProofs J5sResolveCompleteProofs J5sServiceProofs J5sTotalProofs J5sSymbolProofs J5sCompileProofs J5sSubPkgProofs J5sDepsProofs J5sNameProofs J5sTypeNameProofs J5sWitnessProofs.
+From J5V.proofs Require Import J5sProofs J5sContractProofs J5sLinkProofs J5sResolveProofs J5sResolveCompleteProofs J5sServiceProofs J5sTotalProofs J5sSymbolProofs J5sCompileProofs J5sSubPkgProofs J5sDepsProofs J5sNameProofs J5sTypeNameProofs J5sWitnessProofs J5sStrictProofs.
 Import ListNotations.
 Local Open Scope N_scope.
 
@@ -45,14 +45,23 @@ Theorem C02_properties_contract : forall snake camel screaming ps ev path io num
   map dm_name (pr_msgs r) = flat_map (prop_msg_names snake camel) (props_list ps) /\
   map en_name (pr_enums r) = flat_map (prop_enum_names camel) (props_list ps) /\
   (forall msgs enums, incl (pr_msgs r) msgs -> incl (pr_enums r) enums ->
-     props_inline_ok snake camel screaming ps msgs enums).
+     props_inline_ok snake camel screaming true ps msgs enums).
 Proof. intros snake camel screaming. exact (proj1 (proj2 (convert_refines snake camel screaming))). Qed.
 Print Assumptions C02_properties_contract.
 
-(* ---- enums: the declared options numbered in order after <PREFIX>UNSPECIFIED = 0 *)
-Theorem C02_enum_contract : forall screaming name e, enum_ok screaming name e (cv_enum screaming name e).
+(* ---- enums: the declared options numbered in order after <PREFIX>UNSPECIFIED = 0 (the zero
+   value may be spelled out as the first option: UNSPECIFIED or <PREFIX>UNSPECIFIED) - with the
+   clause waived ([true]) for enums whose first option ends in UNSPECIFIED under a name of its own *)
+Theorem C02_enum_contract : forall screaming name e, enum_ok screaming true name e (cv_enum screaming name e).
 Proof. intros screaming. exact (cv_enum_ok screaming screaming screaming). Qed.
 Print Assumptions C02_enum_contract.
+
+(* ... and exactly for those enums the compiler's output violates the clause of the property text
+   ([false]: nothing waived): the class of the recorded finding is exact *)
+Theorem C02_enum_contract_exact : forall screaming name e,
+  enum_ok screaming false name e (cv_enum screaming name e) <-> named_zero screaming name e = false.
+Proof. intros screaming. exact (cv_enum_strict_iff screaming screaming screaming). Qed.
+Print Assumptions C02_enum_contract_exact.
 
 (* ---- well-formed declarations always convert (no error, no panic, no fuel) *)
 Theorem C02_properties_convert : forall snake camel screaming ev ps io,
@@ -70,7 +79,7 @@ Print Assumptions C02_properties_convert.
    same contract, to any depth. *)
 Theorem C02_compile_sound : forall snake camel screaming bd pkg D,
   compile_package snake camel screaming bd pkg = Ok D ->
-  package_contract snake camel screaming bd pkg D.
+  package_contract snake camel screaming true bd pkg D.
 Proof. exact compile_sound. Qed.
 Print Assumptions C02_compile_sound.
 
@@ -82,7 +91,7 @@ Theorem C02_service_contract : forall snake camel screaming ev s ms ss is,
   cv_service snake camel screaming ev s = Ok (ms, ss, is) ->
   exists ds, ss = [ds] /\ ds_name ds = sv_name s ++ b "Service" /\ ds_topic ds = None /\
              Forall2 (method_ok snake (sv_base s)) (sv_methods s) (ds_methods ds) /\
-             exists mss, ms = concat mss /\ Forall2 (method_msgs_ok snake camel screaming) (sv_methods s) mss.
+             exists mss, ms = concat mss /\ Forall2 (method_msgs_ok snake camel screaming true) (sv_methods s) mss.
 Proof. exact cv_service_ok. Qed.
 Print Assumptions C02_service_contract.
 
@@ -93,16 +102,16 @@ Theorem C02_topic_contract : forall snake camel screaming ev t ms ss is,
   cv_topic snake camel screaming ev t = Ok (ms, ss, is) ->
   match t with
   | TPublish name msgs =>
-      exists ds, ss = [ds] /\ topic_service_ok snake camel screaming name (snake name) RPublish PNil msgs ms ds
+      exists ds, ss = [ds] /\ topic_service_ok snake camel screaming true name (snake name) RPublish PNil msgs ms ds
   | TReqRes name req reply =>
       exists ds1 ds2 ms1 ms2, ss = [ds1; ds2] /\ ms = ms1 ++ ms2 /\
-        topic_service_ok snake camel screaming (name ++ b "Request") (snake name) RRequest virt_request req ms1 ds1 /\
-        topic_service_ok snake camel screaming (name ++ b "Reply") (snake name) RReply virt_request reply ms2 ds2
+        topic_service_ok snake camel screaming true (name ++ b "Request") (snake name) RRequest virt_request req ms1 ds1 /\
+        topic_service_ok snake camel screaming true (name ++ b "Reply") (snake name) RReply virt_request reply ms2 ds2
   | TUpsert name entity msg =>
       exists ds, ss = [ds] /\
-        topic_service_ok snake camel screaming name (snake name) (RUpsert entity) virt_upsert [default_tm_name name msg] ms ds
+        topic_service_ok snake camel screaming true name (snake name) (RUpsert entity) virt_upsert [default_tm_name name msg] ms ds
   | TEvent name entity msg =>
-      exists ds, ss = [ds] /\ topic_service_ok snake camel screaming name (snake name) (REvent entity) PNil [msg] ms ds
+      exists ds, ss = [ds] /\ topic_service_ok snake camel screaming true name (snake name) (REvent entity) PNil [msg] ms ds
   end.
 Proof. exact cv_topic_ok. Qed.
 Print Assumptions C02_topic_contract.
@@ -289,10 +298,51 @@ Print Assumptions C02_valid_packages_compile.
    the dependency lists. *)
 Definition C02_full_statement : Prop :=
   forall bd pkg, valid bd = true -> (exists f, In f bd /\ bfile_pkg f = pkg) ->
-    exists D, compile bd pkg = Ok D /\ package_contract_full to_snake to_camel to_screaming_snake bd pkg D.
+    exists D, compile bd pkg = Ok D /\ package_contract_full to_snake to_camel to_screaming_snake false bd pkg D.
 
-Theorem C02_full : C02_full_statement.
+(* REFUTED by the faithful model (known finding, replayed on the real compiler in every run):
+   `enum Status { option OLD_UNSPECIFIED  option ACTIVE }` is valid and compiles to
+   STATUS_OLD_UNSPECIFIED = 0, STATUS_ACTIVE = 1 - no STATUS_UNSPECIFIED, the declared options
+   numbered from 0: a FIRST option ending in UNSPECIFIED is taken as the zero value whatever
+   its name (conversion.go visitEnumNode: strings.HasSuffix) *)
+Theorem C02_named_zero_refuted :
+  valid w_named_zero = true /\
+  exists D, compile w_named_zero (b "foo.v1") = Ok D /\
+    map en_vals (flat_map fl_enums D) = [[(b "STATUS_OLD_UNSPECIFIED", 0); (b "STATUS_ACTIVE", 1)]] /\
+    ~ package_contract_full to_snake to_camel to_screaming_snake false w_named_zero (b "foo.v1") D.
+Proof. exact named_zero_violates. Qed.
+Print Assumptions C02_named_zero_refuted.
+
+Theorem C02_full_refuted : ~ C02_full_statement.
+Proof.
+  intros H. destruct C02_named_zero_refuted as (Hv & D & Hc & _ & Hn).
+  destruct (H w_named_zero (b "foo.v1") Hv) as (D' & Hc' & Hok).
+  - eexists. split; [left; reflexivity|vm_compute; reflexivity].
+  - rewrite Hc in Hc'. inversion Hc'. subst D'. exact (Hn Hok).
+Qed.
+Print Assumptions C02_full_refuted.
+
+(* PROVED, and the only thing missing is that class of enums: (1) for every valid bundle, the
+   statement with the enum clause waived for enums whose first option names a zero value of
+   its own (everything else about those enums - name, place - and about every other
+   declaration holds) ... *)
+Theorem C02_full_partial :
+  forall bd pkg, valid bd = true -> (exists f, In f bd /\ bfile_pkg f = pkg) ->
+    exists D, compile bd pkg = Ok D /\ package_contract_full to_snake to_camel to_screaming_snake true bd pkg D.
 Proof. exact (compile_correct_full to_snake to_camel to_screaming_snake). Qed.
+Print Assumptions C02_full_partial.
+
+(* ... (2) the full statement for every valid bundle in which no enum - declared, nested or
+   inline, at any depth, in objects, oneofs, requests, responses, topic messages - has such a
+   first option (plain_bundle: a boolean check on the source) *)
+Theorem C02_full :
+  forall bd pkg, valid bd = true -> plain_bundle to_camel to_screaming_snake bd = true ->
+    (exists f, In f bd /\ bfile_pkg f = pkg) ->
+    exists D, compile bd pkg = Ok D /\ package_contract_full to_snake to_camel to_screaming_snake false bd pkg D.
+Proof.
+  intros bd pkg Hv Hp Hex. destruct (C02_full_partial bd pkg Hv Hex) as (D & Hc & Hok).
+  exists D. split; [exact Hc|]. exact (contract_strict_of_plain to_snake to_camel to_screaming_snake bd pkg D Hp Hok).
+Qed.
 Print Assumptions C02_full.
 
 (* ---- regression examples: the inputs of the repaired defects compile to the declared types *)
@@ -319,11 +369,11 @@ Example C02_example :
                   Property (b "bar") false false (FObjInline [] (mkprops [sfield "x"]));
                   Property (b "tags") false false (FMap (FScalar SString));
                   Property (b "st") false true (FEnumInline (mkEnum [] [] [b "A"; b "B"]))]) NNil])] in
-  valid bd = true /\
+  valid bd = true /\ plain_bundle to_camel to_screaming_snake bd = true /\
   exists D, compile bd (b "foo.v1") = Ok D /\
     match D with
     | [f] => map (fun m => map (fun x => (f_name x, f_num x)) (dm_fields m)) (fl_msgs f) =
              [[(b "foo_id", 1); (b "bar", 2); (b "tags", 3); (b "st", 4)]]
     | _ => False
     end.
-Proof. cbv zeta. split; [vm_compute; reflexivity|]. eexists. split; vm_compute; reflexivity. Qed.
+Proof. cbv zeta. split; [vm_compute; reflexivity|]. split; [vm_compute; reflexivity|]. eexists. split; vm_compute; reflexivity. Qed.
